@@ -394,3 +394,15 @@ def output_to_the_controller_buffers_the_frame_with_its_ingress_port(b):
 # report the true total length): the C12 unit on rx_packet, shared (seeded change C18_9)
 import contracts.c12_datapath as _D12   # noqa (c12 imports this module near its end, after the unit below is defined)
 unit(P, target=SW + "SoftwareSwitchBase.rx_packet (table miss)", name="a_miss_hands_the_whole_frame_to_the_packet_in")(_D12.receive_rules_and_counters)
+
+# an enqueue action in the list a buffer is released with must hand the frame on to the next action (C12 unit; C18_10)
+unit(P, target=SW + "SoftwareSwitchBase._action_enqueue", name="an_enqueue_action_hands_the_frame_on")(_D12.enqueue_outputs_on_the_named_port)
+
+# packing a flow-mod (the switch does it to echo a refused request in its error reply) does not change it - in particular not
+# the buffer id it names, which the switch reads AFTERWARDS to release the buffer: the C01 round-trip unit (the object is
+# compared with its decoded copy after pack()), shared (seeded change C18_11 cleared buffer_id as a side effect of pack())
+import contracts.c01_containers as _C01   # noqa
+from pyvc.api import UNITS as _UNITS
+for _u in list(_UNITS.get("C01", [])):
+  if _u.name == "ofp_flow_mod_0":
+    unit(P, target=_u.target, name="packing_a_flow_mod_leaves_its_buffer_id_alone")(_u.fn)
